@@ -19,6 +19,8 @@ type TraceThread struct {
 	Name   string `json:"name"`
 	Parent int    `json:"parent"`
 	Site   string `json:"site"` // file:line of the go statement / vrt.Go call
+	// ChildIdx: how many threads the parent had spawned before this one
+	ChildIdx int `json:"child_idx"`
 }
 type TraceStep struct {
 	Th   int    `json:"th"`
@@ -66,6 +68,8 @@ type thr struct {
 	fire   func()
 	reg    chan struct{}
 	yields int
+	nspawn int // children spawned so far
+	idx    int // number of children the parent had spawned before this one
 }
 
 // wakeUp grants the thread (starting the goroutine of a timer callback first).
@@ -101,6 +105,10 @@ func AfterFunc(site string, d time.Duration, f func()) *time.Timer {
 		return time.AfterFunc(d, f)
 	}
 	child := &thr{id: -1, wake: make(chan struct{}), parent: parent, site: site, reg: make(chan struct{})}
+	if parent != nil {
+		child.idx = parent.nspawn
+		parent.nspawn++
+	}
 	var tm *time.Timer
 	tm = time.AfterFunc(1000*time.Hour, func() {
 		mu.Lock()
@@ -247,6 +255,10 @@ func Go(site string, fn func()) {
 		return
 	}
 	child := &thr{id: -1, wake: make(chan struct{}), parent: parent, site: site}
+	if parent != nil {
+		child.idx = parent.nspawn
+		parent.nspawn++
+	}
 	mu.Lock()
 	unbound = append(unbound, child)
 	mu.Unlock()
@@ -346,6 +358,19 @@ func Run(tracePath string, entry func()) Result {
 				return nil
 			}
 			tt := trace.Threads[id]
+			// first choice: the goroutine that was the parent's ChildIdx-th child
+			for i, u := range unbound {
+				pid := -1
+				if u.parent != nil {
+					pid = u.parent.id
+				}
+				if pid == tt.Parent && sameSite(u.site, tt.Site) && u.idx == tt.ChildIdx {
+					u.id = id
+					threads[id] = u
+					unbound = append(unbound[:i], unbound[i+1:]...)
+					return u
+				}
+			}
 			for i, u := range unbound {
 				pid := -1
 				if u.parent != nil {
